@@ -109,6 +109,13 @@ def build(spec, dialect: str, coltypes: Dict[str, str]) -> Built:
         return Built(("like", a.ast, b.ast, None, False, "LIKE"), a.sa.like(b.sa), BOOL)
     if op == "not_like":
         return Built(("like", a.ast, b.ast, None, True, "LIKE"), a.sa.not_like(b.sa), BOOL)
+    if op == "like_escq":
+        # escape character that is itself the string-literal delimiter
+        return Built(("like", a.ast, b.ast, ("lit", "'"), False, "LIKE"), a.sa.like(b.sa, escape="'"), BOOL)
+    if op == "not_like_escq":
+        return Built(("like", a.ast, b.ast, ("lit", "'"), True, "LIKE"), a.sa.not_like(b.sa, escape="'"), BOOL)
+    if op == "not_like_esc":
+        return Built(("like", a.ast, b.ast, ("lit", "/"), True, "LIKE"), a.sa.not_like(b.sa, escape="/"), BOOL)
     if op == "like_esc":
         return Built(("like", a.ast, b.ast, ("lit", "/"), False, "LIKE"), a.sa.like(b.sa, escape="/"), BOOL)
     if op in ("in_list", "not_in_list"):
